@@ -63,13 +63,17 @@ class SimListener:
         self.pending = []
         self.closed = 0
         self.stolen = 0          # connections a sibling worker will accept first: readable, then EAGAIN
+        self.aborted = 0         # connections reset by the peer while still in the listen queue: readable, then ECONNABORTED
 
     def readable(self):
-        return (bool(self.pending) or self.stolen > 0) and not self.closed
+        return (bool(self.pending) or self.stolen > 0 or self.aborted > 0) and not self.closed
 
     def accept(self):
         self.w.s.point("listener.accept")
         if not self.pending:
+            if self.aborted:
+                self.aborted -= 1
+                raise ConnectionAbortedError(errno.ECONNABORTED, "Software caused connection abort")
             if self.stolen:
                 self.stolen -= 1
             raise BlockingIOError(errno.EAGAIN, "nothing to accept")
@@ -422,6 +426,10 @@ class World:
             # the listener is reported readable, but another worker process accepts the connection first
             self.listener.stolen += 1
             self.steals_left -= 1
+        elif kind == "abort":
+            # a client connected and reset before the worker got to accept(): accept() fails with ECONNABORTED
+            self.listener.aborted += 1
+            self.steals_left -= 1
         else:
             raise AssertionError(ev)
 
@@ -452,6 +460,7 @@ class World:
             evs = [e for e in evs if (e[0] == "send" and e[2] == "ka") or e[0] == "connect"]
         elif self.steals_left > 0:
             evs.append(("steal",))
+            evs.append(("abort",))
         return evs
 
     # ---- observation
